@@ -19,7 +19,7 @@ Ltac ev_step HR ev1 ev2 :=
   | |- context [ev2 ?fr ?st ?e] =>
       let E := fresh "E" in
       pose proof (HR fr st e) as E;
-      destruct (ev1 fr st e) as [[?v|?k| | |?v|[| | | |]] ?s];
+      destruct (ev1 fr st e) as [[?v|?k| | |?v|[| |]] ?s];
       cbn [fst] in E;
       try (rewrite E by (unfold dsl_nf; discriminate); clear E);
       cbn [dsl_bind fst] in *
@@ -35,7 +35,7 @@ Proof.
   induction es as [|e t IH]; intros fr st H; [reflexivity|].
   cbn [dsl_eval_list] in *. ev_step HR ev1 ev2; try reflexivity; try (cbn in H; fuel_absurd).
   rewrite IH; [reflexivity|].
-  destruct (dsl_eval_list ev1 fr s t) as [[[?v|?k| | |?v|[| | | |]] ?s] ?l]; cbn in *; try exact H; unfold dsl_nf; discriminate.
+  destruct (dsl_eval_list ev1 fr s t) as [[[?v|?k| | |?v|[| |]] ?s] ?l]; cbn in *; try exact H; unfold dsl_nf; discriminate.
 Qed.
 
 Lemma dsl_eval_seq_mono : forall es fr st last,
@@ -52,7 +52,7 @@ Proof.
   induction cs as [|[k e] t IH]; intros fr st H; [reflexivity|].
   cbn [dsl_eval_closed] in *. ev_step HR ev1 ev2; try reflexivity; try (cbn in H; fuel_absurd);
   (rewrite IH; [reflexivity|];
-   destruct (dsl_eval_closed ev1 fr s t) as [[[?v|?k| | |?v|[| | | |]] ?s] ?l]; cbn in *; try exact H; unfold dsl_nf; discriminate).
+   destruct (dsl_eval_closed ev1 fr s t) as [[[?v|?k| | |?v|[| |]] ?s] ?l]; cbn in *; try exact H; unfold dsl_nf; discriminate).
 Qed.
 
 Lemma dsl_while_mono2 : forall L1 L2 fr st c b, (L1 <= L2)%nat ->
@@ -85,7 +85,7 @@ Proof.
 Qed.
 
 Lemma dsl_fun_result_nf : forall o, dsl_nf (fst (dsl_fun_result o)) -> dsl_nf (fst o).
-Proof. intros [[v|k| | |v|[| | | |]] s] H; cbn in *; try exact H; unfold dsl_nf; discriminate. Qed.
+Proof. intros [[v|k| | |v|[| |]] s] H; cbn in *; try exact H; unfold dsl_nf; discriminate. Qed.
 
 Lemma dsl_call_user_mono : forall st l self args,
   dsl_nf (fst (dsl_call_user ev1 st l self args)) -> dsl_call_user ev2 st l self args = dsl_call_user ev1 st l self args.
@@ -108,7 +108,7 @@ Ltac cb_step :=
   | |- context [dsl_callback ev2 ?st ?f ?args] =>
       let E := fresh "E" in
       pose proof (dsl_callback_mono st f args) as E;
-      destruct (dsl_callback ev1 st f args) as [[?v|?k| | |?v|[| | | |]] ?s];
+      destruct (dsl_callback ev1 st f args) as [[?v|?k| | |?v|[| |]] ?s];
       cbn [fst] in E;
       try (rewrite E by (unfold dsl_nf; discriminate); clear E);
       cbn [dsl_bind fst] in *
@@ -152,7 +152,7 @@ Proof.
         | |- context [dsl_iter ev2 ?m ?f ?l ?LL ?i ?st0 ?acc] =>
             let E := fresh "E" in
             pose proof (dsl_iter_mono L1 L2 m f l i st0 acc Hle) as E;
-            destruct (dsl_iter ev1 m f l L1 i st0 acc) as [[[[?v|?k| | |?v|[| | | |]] ?s] ?a] ?b]; cbn [fst] in E;
+            destruct (dsl_iter ev1 m f l L1 i st0 acc) as [[[[?v|?k| | |?v|[| |]] ?s] ?a] ?b]; cbn [fst] in E;
             try (rewrite E by (unfold dsl_nf; discriminate)); try reflexivity; cbn in H; fuel_absurd
         end);
    try (destruct (dsl_arr st l); [reflexivity|]; apply dsl_reduce_mono; assumption)).
@@ -168,7 +168,7 @@ Qed.
 
 Definition dsl_nfref (r : dsl_refres) : Prop := match r with RrOut o => dsl_nf (fst o) | _ => True end.
 
-Ltac res_cases t := destruct t as [[?v|?k| | |?v|[| | | |]] ?s].
+Ltac res_cases t := destruct t as [[?v|?k| | |?v|[| |]] ?s].
 
 Ltac crush H :=
   repeat (cbn [dsl_bind fst dsl_nfref dsl_ret dsl_err dsl_lift] in *;
@@ -198,26 +198,26 @@ Proof.
   pose proof (HR fr st i) as E. destruct (ev1 fr st i) as [r st1] eqn:E1. cbn [fst] in E.
   assert (Hgo : forall v,
     dsl_nfimp (match v with
-               | DvEmpty => IrOut (DrAbort DaNullImport, st1)
+               | DvEmpty => IrOut (DrErr DkType, st1)
                | DvFun _ | DvNat _ => IrOut (DrAbort DaDomain, st1)
                | DvNum _ _ | DvBool _ | DvStr _ => IrOut (DrErr DkType, st1)
                | _ => if dsl_has_own st1 v x then IrFound v st1 else dsl_find_import ev1 fr st1 t x
                end) ->
     match v with
-    | DvEmpty => IrOut (DrAbort DaNullImport, st1)
+    | DvEmpty => IrOut (DrErr DkType, st1)
     | DvFun _ | DvNat _ => IrOut (DrAbort DaDomain, st1)
     | DvNum _ _ | DvBool _ | DvStr _ => IrOut (DrErr DkType, st1)
     | _ => if dsl_has_own st1 v x then IrFound v st1 else dsl_find_import ev2 fr st1 t x
     end =
     match v with
-    | DvEmpty => IrOut (DrAbort DaNullImport, st1)
+    | DvEmpty => IrOut (DrErr DkType, st1)
     | DvFun _ | DvNat _ => IrOut (DrAbort DaDomain, st1)
     | DvNum _ _ | DvBool _ | DvStr _ => IrOut (DrErr DkType, st1)
     | _ => if dsl_has_own st1 v x then IrFound v st1 else dsl_find_import ev1 fr st1 t x
     end).
   { intros v Hv. destruct v; try reflexivity;
     (destruct (dsl_has_own st1 _ x); [reflexivity | apply IH; exact Hv]). }
-  destruct r as [v|k| | |v|[| | | |]];
+  destruct r as [v|k| | |v|[| |]];
     first [ (cbn in H; fuel_absurd)
           | rewrite E by (unfold dsl_nf; discriminate); cbv zeta; first [reflexivity | apply Hgo; exact H] ].
 Qed.
@@ -271,16 +271,16 @@ Ltac crush2 H L1 L2 Hle :=
         let Ex := fresh "Ex" in destruct x eqn:Ex; try rewrite Ex in H end
     | match goal with |- context [dsl_ref ev2 ?fr ?st ?e ?i] =>
         let E := fresh "E" in pose proof (dsl_ref_mono e fr st i) as E;
-        destruct (dsl_ref ev1 fr st e i) as [?vp ?vi ?s| |[[?v|?k| | |?v|[| | | |]] ?s]]; cbn [dsl_nfref fst] in E; fin_step E H end
+        destruct (dsl_ref ev1 fr st e i) as [?vp ?vi ?s| |[[?v|?k| | |?v|[| |]] ?s]]; cbn [dsl_nfref fst] in E; fin_step E H end
     | match goal with |- context [dsl_var_read ev2 ?fr ?st ?imps ?x] =>
         let E := fresh "E" in pose proof (dsl_var_read_mono imps fr st x) as E;
         res_cases (dsl_var_read ev1 fr st imps x); cbn [fst] in E; fin_step E H end
     | match goal with |- context [dsl_eval_list ev2 ?fr ?st ?es] =>
         let E := fresh "E" in pose proof (dsl_eval_list_mono es fr st) as E;
-        destruct (dsl_eval_list ev1 fr st es) as [[[?v|?k| | |?v|[| | | |]] ?s] ?vs]; cbn [fst] in E; fin_step E H end
+        destruct (dsl_eval_list ev1 fr st es) as [[[?v|?k| | |?v|[| |]] ?s] ?vs]; cbn [fst] in E; fin_step E H end
     | match goal with |- context [dsl_eval_closed ev2 ?fr ?st ?cs] =>
         let E := fresh "E" in pose proof (dsl_eval_closed_mono cs fr st) as E;
-        destruct (dsl_eval_closed ev1 fr st cs) as [[[?v|?k| | |?v|[| | | |]] ?s] ?vs]; cbn [fst] in E; fin_step E H end
+        destruct (dsl_eval_closed ev1 fr st cs) as [[[?v|?k| | |?v|[| |]] ?s] ?vs]; cbn [fst] in E; fin_step E H end
     | match goal with |- context [dsl_eval_seq ev2 ?fr ?st ?es ?l] =>
         let E := fresh "E" in pose proof (dsl_eval_seq_mono es fr st l) as E;
         res_cases (dsl_eval_seq ev1 fr st es l); cbn [fst] in E; fin_step E H end
